@@ -457,11 +457,17 @@ func Parse
   ensures result1 != nil ==> result0 == nil
   ensures result1 == nil ==> result0 != nil
 
-property C18: parseArchInto, ParseArch, ParseArchitectures, (*Arch).UnmarshalControl, (*input).Peek, (*input).Next, eatWhitespace, parsePossibilityOperator, parsePossibilityNumber, parsePossibilityVersion,
+// decoding a field into an existing value: rejected input leaves the value as it was ("an error and no result")
+func (*Dependency).UnmarshalControl
+  requires dep != nil
+  ensures result != nil ==> dep.Relations == old(dep.Relations)
+  modifies dep.Relations
+
+property C18: (*Dependency).UnmarshalControl, parseArchInto, ParseArch, ParseArchitectures, (*Arch).UnmarshalControl, (*input).Peek, (*input).Next, eatWhitespace, parsePossibilityOperator, parsePossibilityNumber, parsePossibilityVersion,
   parsePossibilityArch, parsePossibilityArchs, parsePossibilityStage, parsePossibilityStageSet, parsePossibilityControllers,
   parseMultiarch, parseSubstvar, parsePossibility, parseRelation, parseDependency, Parse
 
-property C04: lemma cat_extend, (*input).Peek, (*input).Next, eatWhitespace, parsePossibilityOperator, parsePossibilityNumber, parsePossibilityVersion,
+property C04: (*Dependency).UnmarshalControl, lemma cat_extend, (*input).Peek, (*input).Next, eatWhitespace, parsePossibilityOperator, parsePossibilityNumber, parsePossibilityVersion,
   parsePossibilityArch, parsePossibilityArchs, parsePossibilityStage, parsePossibilityStageSet, parsePossibilityControllers,
   parseMultiarch, parseSubstvar, parsePossibility, parseRelation, parseDependency, Parse
 
